@@ -1,9 +1,234 @@
-import SynthVerif.Model.Adsr
-import SynthVerif.Model.Lfo
-import SynthVerif.Model.Quantizer
-import SynthVerif.Model.Midi
-import SynthVerif.Model.Glide
-import SynthVerif.Model.Ribbon
+import SynthVerif.Props.MidiLemmas
+import SynthVerif.F32.Ops
+import Mathlib.Tactic.NormNum
+import Mathlib.Tactic.Linarith
+/-!
+# C18 — MIDI controllers and pitch bend are scaled and routed as documented
+
+* `routing`: which arm of the controller `match` each documented controller number selects, decided on the
+  constants *generated from the compiled crate*; `other_controllers_inert`: every other number changes nothing.
+* `cc_*`: the exact state change of every documented controller on the listened channel.
+* `value7_*`: `value/127` — 0 ↦ 0.0, 127 ↦ 1.0, strictly increasing (all 128 values, no enumeration).
+* `bend_*`: 14-bit pitch bend — 0 ↦ -1.0, 8192 ↦ exactly 0.0, 16383 ↦ +1.0, strictly increasing over all 16384
+  values; `bend_lsb_first`: the byte sequence `En lsb msb` is assembled LSB first.
+-/
 namespace C18
-theorem placeholder_to_be_replaced : True := trivial
+open F32
+
+/-! ### routing -/
+
+theorem routing :
+    Midi.ccArm 1 = 0 ∧ Midi.ccArm 7 = 1 ∧ Midi.ccArm 71 = 2 ∧ Midi.ccArm 74 = 3 ∧ Midi.ccArm 5 = 4 ∧
+    Midi.ccArm 65 = 5 ∧ Midi.ccArm 64 = 6 ∧ Midi.ccArm 121 = 7 ∧ Midi.ccArm 123 = 8 := by decide
+
+theorem half_scale : Gen.u7HalfScale = 64 := by decide
+
+theorem other_arm (cc : Nat) (h : cc ∉ [1, 7, 71, 74, 5, 65, 64, 121, 123]) : Midi.ccArm cc = 9 := by
+  simp only [List.mem_cons, List.not_mem_nil, or_false, not_or] at h
+  obtain ⟨h1, h2, h3, h4, h5, h6, h7, h8, h9⟩ := h
+  simp [Midi.ccArm, Gen.ccModWheel, Gen.ccVolume, Gen.ccVcfCutoff, Gen.ccVcfResonance, Gen.ccPortamentoTime,
+    Gen.ccPortamentoSwitch, Gen.ccSustainSwitch, Gen.ccAllControllersOff, Gen.ccAllNotesOff, *]
+
+/-- no controller number outside the documented nine changes anything -/
+theorem other_controllers_inert (m : Midi) (cc v : Nat) (h : cc ∉ [1, 7, 71, 74, 5, 65, 64, 121, 123]) :
+    m.controlChange cc v = m := by
+  simp [Midi.controlChange, other_arm cc h]
+
+/-- controllers on another channel change nothing -/
+theorem other_channel_inert (m : Midi) (c cc v : Nat) (h : c ≠ m.channel) :
+    m.handle (.controlChange c cc v) = m := by
+  have : (c == m.channel) = false := by simp [h]
+  simp [Midi.handle, this]
+
+theorem cc_mod_wheel (m : Midi) (v : Nat) : m.controlChange 1 v = { m with modWheel := value7ToF32 v } := by
+  simp [Midi.controlChange, routing.1]
+theorem cc_volume (m : Midi) (v : Nat) : m.controlChange 7 v = { m with volume := value7ToF32 v } := by
+  simp [Midi.controlChange, routing.2.1]
+theorem cc_vcf_cutoff (m : Midi) (v : Nat) : m.controlChange 71 v = { m with vcfCutoff := value7ToF32 v } := by
+  simp [Midi.controlChange, routing.2.2.1]
+theorem cc_vcf_resonance (m : Midi) (v : Nat) : m.controlChange 74 v = { m with vcfResonance := value7ToF32 v } := by
+  simp [Midi.controlChange, routing.2.2.2.1]
+theorem cc_portamento_time (m : Midi) (v : Nat) : m.controlChange 5 v = { m with portamentoTime := value7ToF32 v } := by
+  simp [Midi.controlChange, routing.2.2.2.2.1]
+theorem cc_portamento_switch (m : Midi) (v : Nat) :
+    m.controlChange 65 v = { m with portamentoEnabled := decide (64 ≤ v) } := by
+  simp [Midi.controlChange, routing.2.2.2.2.2.1, half_scale]
+theorem cc_sustain_switch (m : Midi) (v : Nat) :
+    m.controlChange 64 v = { m with sustainEnabled := decide (64 ≤ v) } := by
+  simp [Midi.controlChange, routing.2.2.2.2.2.2.1, half_scale]
+/-- controller 121 restores every controller and the pitch bend to its power-on default and nothing else -/
+theorem cc_reset_all (m : Midi) (v : Nat) :
+    m.controlChange 121 v =
+      { m with pitchBend := zero, modWheel := zero, volume := zero, vcfCutoff := zero, vcfResonance := zero,
+               portamentoTime := zero, portamentoEnabled := true, sustainEnabled := true } := by
+  simp [Midi.controlChange, routing.2.2.2.2.2.2.2.1]
+theorem reset_matches_power_on (ch : Nat) (m : Midi) (v : Nat) :
+    let r := m.controlChange 121 v
+    let n := Midi.new ch
+    r.pitchBend = n.pitchBend ∧ r.modWheel = n.modWheel ∧ r.volume = n.volume ∧ r.vcfCutoff = n.vcfCutoff ∧
+    r.vcfResonance = n.vcfResonance ∧ r.portamentoTime = n.portamentoTime ∧
+    r.portamentoEnabled = n.portamentoEnabled ∧ r.sustainEnabled = n.sustainEnabled := by
+  simp [cc_reset_all, Midi.new]
+/-- All-Notes-Off touches no controller -/
+theorem cc_all_notes_off_controllers (m : Midi) (v : Nat) :
+    let r := m.controlChange 123 v
+    r.pitchBend = m.pitchBend ∧ r.modWheel = m.modWheel ∧ r.volume = m.volume ∧ r.vcfCutoff = m.vcfCutoff ∧
+    r.vcfResonance = m.vcfResonance ∧ r.portamentoTime = m.portamentoTime ∧
+    r.portamentoEnabled = m.portamentoEnabled ∧ r.sustainEnabled = m.sustainEnabled := by
+  simp [Midi.controlChange, routing.2.2.2.2.2.2.2.2]
+
+/-! ### value / 127 -/
+
+theorem value7_val (v : Nat) (h : v ≤ 127) :
+    (value7ToF32 v).isFin = true ∧ (value7ToF32 v).val = rnd ((v:ℚ) / 127) := by
+  obtain ⟨h1, h2⟩ := ofNat_fin v (by omega)
+  have hb : |(v:ℚ) / 127| ≤ 2 ^ (127:ℤ) := by
+    rw [abs_of_nonneg (by positivity)]
+    calc (v:ℚ) / 127 ≤ 1 := by rw [div_le_one (by norm_num)]; exact_mod_cast h
+      _ ≤ 2 ^ (127:ℤ) := by norm_num
+  have := val_div (x := ofNat v) (y := .fin 127 false) h1 rfl (by simp) (by simpa [h2] using hb)
+  simpa [value7ToF32, h2] using this
+
+theorem value7_zero : value7ToF32 0 = zero := by decide +kernel
+theorem value7_full : value7ToF32 127 = one := by decide +kernel
+
+private theorem err1 {x : ℚ} (h : |x| ≤ 1) : |rnd x - x| ≤ 2 ^ (-24:ℤ) := by
+  have := rnd_err (x := x) (k := 1) (by norm_num) (lt_of_le_of_lt h (by norm_num))
+  simpa using this
+
+/-- strictly increasing in the 7-bit value -/
+theorem value7_strict (a b : Nat) (hab : a < b) (hb : b ≤ 127) :
+    (value7ToF32 a).val < (value7ToF32 b).val := by
+  rw [(value7_val a (by omega)).2, (value7_val b hb).2]
+  have ha1 : |(a:ℚ) / 127| ≤ 1 := by
+    rw [abs_of_nonneg (by positivity), div_le_one (by norm_num)]; exact_mod_cast (by omega : a ≤ 127)
+  have hb1 : |(b:ℚ) / 127| ≤ 1 := by
+    rw [abs_of_nonneg (by positivity), div_le_one (by norm_num)]; exact_mod_cast hb
+  have ea := abs_le.mp (err1 ha1)
+  have eb := abs_le.mp (err1 hb1)
+  have gap : (a:ℚ) / 127 + 1 / 127 ≤ (b:ℚ) / 127 := by
+    rw [← add_div, div_le_div_iff_of_pos_right (by norm_num)]; exact_mod_cast hab
+  have : (2:ℚ) ^ (-24:ℤ) = 1 / 16777216 := by norm_num
+  rw [this] at ea eb
+  linarith [ea.2, eb.1]
+
+/-! ### pitch bend -/
+
+/-- the real-valued scaling of the 14-bit value `u` -/
+def bendIdeal (u : ℕ) : ℚ := if 8192 < u then ((u:ℚ) - 8192) / 8191 else ((u:ℚ) - 8192) / 8192
+
+theorem bendIdeal_abs (u : ℕ) (h : u ≤ 16383) : |bendIdeal u| ≤ 1 := by
+  unfold bendIdeal
+  have hu : (u:ℚ) ≤ 16383 := by exact_mod_cast h
+  split
+  · rename_i h1
+    have : (8192:ℚ) < u := by exact_mod_cast h1
+    rw [abs_le]; constructor
+    · have : (0:ℚ) ≤ ((u:ℚ) - 8192) / 8191 := by apply div_nonneg <;> linarith
+      linarith
+    · rw [div_le_one (by norm_num)]; linarith
+  · rename_i h1
+    have : (u:ℚ) ≤ 8192 := by exact_mod_cast (not_lt.mp h1)
+    rw [abs_le]; constructor
+    · rw [le_div_iff₀ (by norm_num)]; linarith [show (0:ℚ) ≤ u from by positivity]
+    · have : ((u:ℚ) - 8192) / 8192 ≤ 0 := by apply div_nonpos_of_nonpos_of_nonneg <;> linarith
+      linarith
+
+theorem bendIdeal_gap (u : ℕ) : bendIdeal u + 1 / 8192 ≤ bendIdeal (u + 1) := by
+  unfold bendIdeal
+  by_cases h1 : 8192 < u
+  · have h2 : 8192 < u + 1 := by omega
+    rw [if_pos h1, if_pos h2]
+    have : (8192:ℚ) < u := by exact_mod_cast h1
+    push_cast
+    rw [show ((u:ℚ) + 1 - 8192) / 8191 = ((u:ℚ) - 8192) / 8191 + 1 / 8191 by ring]
+    have : (1:ℚ) / 8192 ≤ 1 / 8191 := by norm_num
+    linarith
+  · by_cases h2 : 8192 < u + 1
+    · have hu : u = 8192 := by omega
+      subst hu
+      rw [if_neg h1, if_pos h2]; norm_num
+    · rw [if_neg h1, if_neg h2]; push_cast; ring_nf; exact le_refl _
+
+theorem clamp_unit {x : F32} (hx : x.isFin = true) (h1 : -1 ≤ x.val) (h2 : x.val ≤ 1) :
+    clamp x (.fin (-1) false) one = x := by
+  cases x <;> simp_all [isFin, val]
+  rename_i q nz
+  have a : ¬ q < -1 := not_lt.mpr h1
+  have b : ¬ (1:ℚ) < q := not_lt.mpr h2
+  simp [clamp, lt_fin, one, a, b]
+
+theorem bend_val (msb lsb : Nat) (hm : msb < 128) (hl : lsb < 128) :
+    (value14ToF32 msb lsb).isFin = true ∧ (value14ToF32 msb lsb).val = rnd (bendIdeal (msb * 128 + lsb)) := by
+  set u := msb * 128 + lsb with hu
+  have hu' : u ≤ 16383 := by omega
+  have hv : |((u:ℤ) - 8192)| < 2 ^ 24 := by rw [abs_lt]; constructor <;> omega
+  obtain ⟨f1, f2⟩ := ofInt_fin ((u:ℤ) - 8192) hv
+  have hid := bendIdeal_abs u hu'
+  unfold value14ToF32
+  simp only [← hu]
+  by_cases h1 : 8192 < u
+  · have hpos : ((u:ℕ):ℤ) - 8192 > 0 := by omega
+    simp only [hpos, ↓reduceIte]
+    have e : bendIdeal u = ((u:ℚ) - 8192) / 8191 := by simp [bendIdeal, h1]
+    have hq : (((u:ℤ) - 8192 : ℤ) : ℚ) = (u:ℚ) - 8192 := by push_cast; ring
+    have d := val_div (x := ofInt ((u:ℤ) - 8192)) (y := .fin 8191 false) f1 rfl (by simp)
+      (by rw [f2, val_fin, hq, ← e]; exact le_trans hid (by norm_num))
+    rw [f2, val_fin, hq, ← e] at d
+    have hb := abs_le.mp (abs_rnd_le hid rep_one)
+    rw [clamp_unit d.1 (by rw [d.2]; exact hb.1) (by rw [d.2]; exact hb.2)]
+    exact d
+  · have hpos : ¬ (((u:ℕ):ℤ) - 8192 > 0) := by omega
+    simp only [hpos, ↓reduceIte]
+    have e : bendIdeal u = ((u:ℚ) - 8192) / 8192 := by simp [bendIdeal, h1]
+    have hq : (((u:ℤ) - 8192 : ℤ) : ℚ) = (u:ℚ) - 8192 := by push_cast; ring
+    have d := val_div (x := ofInt ((u:ℤ) - 8192)) (y := .fin 8192 false) f1 rfl (by simp)
+      (by rw [f2, val_fin, hq, ← e]; exact le_trans hid (by norm_num))
+    rw [f2, val_fin, hq, ← e] at d
+    have hb := abs_le.mp (abs_rnd_le hid rep_one)
+    rw [clamp_unit d.1 (by rw [d.2]; exact hb.1) (by rw [d.2]; exact hb.2)]
+    exact d
+
+/-- the pitch-bend value as a function of the 14-bit number -/
+def bend (u : Nat) : F32 := value14ToF32 (u / 128) (u % 128)
+
+theorem bend_min : bend 0 = .fin (-1) false := by decide +kernel
+theorem bend_centre : bend 8192 = zero := by decide +kernel
+theorem bend_max : bend 16383 = one := by decide +kernel
+
+private theorem bend_val' (u : Nat) (h : u ≤ 16383) : (bend u).val = rnd (bendIdeal u) := by
+  have := (bend_val (u / 128) (u % 128) (by omega) (Nat.mod_lt _ (by decide))).2
+  rwa [Nat.div_add_mod'] at this
+
+theorem bend_step (u : Nat) (h : u + 1 ≤ 16383) : (bend u).val < (bend (u + 1)).val := by
+  rw [bend_val' u (by omega), bend_val' (u + 1) h]
+  have ea := abs_le.mp (err1 (bendIdeal_abs u (by omega)))
+  have eb := abs_le.mp (err1 (bendIdeal_abs (u + 1) h))
+  have gap := bendIdeal_gap u
+  have : (2:ℚ) ^ (-24:ℤ) = 1 / 16777216 := by norm_num
+  rw [this] at ea eb
+  linarith [ea.2, eb.1]
+
+/-- strictly increasing over all 16384 pitch-bend values -/
+theorem bend_strict (u w : Nat) (huw : u < w) (hw : w ≤ 16383) : (bend u).val < (bend w).val := by
+  induction w with
+  | zero => omega
+  | succ w ih =>
+    rcases Nat.lt_succ_iff_lt_or_eq.mp huw with h | h
+    · exact lt_trans (ih h (by omega)) (bend_step w hw)
+    · subst h; exact bend_step u hw
+
+/-- `En lsb msb` on the listened channel: assembled LSB first -/
+theorem bend_lsb_first (m : Midi) (lsb msb : Nat) (hl : lsb < 128) (hm : msb < 128) (hc : m.channel < 16) :
+    (((m.parse (0xE0 + m.channel)).parse lsb).parse msb).pitchBend = bend (msb * 128 + lsb) := by
+  have e1 : (0xE0 + m.channel) / 16 = 14 := by omega
+  have e2 : (0xE0 + m.channel) % 16 = m.channel := by omega
+  have n1 : 0xE0 + m.channel ≥ 0x80 := by omega
+  have n2 : ¬ (0xE0 + m.channel ≥ 0xf0) := by omega
+  have n3 : ¬ (lsb ≥ 0x80) := by omega
+  have n4 : ¬ (msb ≥ 0x80) := by omega
+  have d1 : (msb * 128 + lsb) / 128 = msb := by omega
+  have d2 : (msb * 128 + lsb) % 128 = lsb := by omega
+  simp [Midi.parse, parserStep, n1, n2, n3, n4, e1, e2, Midi.handle, bend, d1, d2]
+
 end C18
